@@ -9,8 +9,6 @@ NA = {
     'C07': 'termination/deadlock-freedom and error propagation across three threads under every schedule and fault point: liveness over histories, not expressible as function contracts (DESIGN.md section 10)',
     'C19': 'FIFO/loss-freedom/wake-up of a monitor under all interleavings and exactly-once execution in the pool: the deciding steps are lock/wait/notify orderings (DESIGN.md section 10)',
 }
-NA['C11'] = ('not brought under contract in this round: the relations manager classes (template-heavy, callback-driven) were not extracted; the storage kernel it rests on '
-             '(ItemStash add/remove/compaction fix-up) is verified under C15, and that check catches the seeded C11 change (DESIGN.md section 15.1)')
 NOT_BUILT = 'units not under contract yet in this build round (DESIGN.md section 13: never claimed on faith)'
 
 ids = ['C%02d' % i for i in range(1, 21)]
